@@ -57,18 +57,73 @@ package keeper
 //@ loop 2 invariant [kept] packetStateKept(old(xibc(ctx)), xibc(ctx))
 //@ ensures [packet-state-kept] packetStateKept(old(xibc(ctx)), xibc(ctx))
 
+// ---- client lifecycle (C18) ------------------------------------------------------------------------
+// verif:spec clientTypeOf(cs exported.ClientState) string
+// verif:spec consTypeOf(cs exported.ConsensusState) string
+// verif:spec latestHeightOf(cs exported.ClientState) exported.Height
+// verif:spec headerHeight(h exported.Header) exported.Height
+// verif:spec statusOf(cs exported.ClientState, store sdk.KVStore, now time.Time) exported.Status
+// verif:import sdk github.com/cosmos/cosmos-sdk/types
+// verif:import time time
+// verif:pred stored(m, name) := unmarshalIface(kvget(m, host.FullClientStateKey(name)))
+
 // verif:func (Keeper).CreateClient
 //@ modifies xibc(ctx)
+//@ callsite Initialize [initialised-as-new] recv == clientState && consState == consensusState && store == k.ClientStore(ctx, chainName)
+//@ callsite SetClientState [installs-proposed-client] chainName == dollar_chainName && dollar_clientState == clientState
+//@ callsite SetClientConsensusState [installs-proposed-consensus] dollar_chainName == chainName && height == latestHeightOf(clientState) && dollar_consensusState == consensusState
+//@ ensures [errors-propagate] ncalls("Initialize") == 1 && (err == nil ==> callsok("Initialize"))
+//@ ensures [consensus-stored-unless-tss] err == nil && consTypeOf(consensusState) != exported.TSS ==> ncalls("SetClientConsensusState") == 1
 //@ ensures [packet-state-kept] packetStateKept(old(xibc(ctx)), xibc(ctx))
 
 // verif:func (Keeper).UpgradeClient
 //@ modifies xibc(ctx)
+//@ ensures [exists]    err == nil ==> kvhas(old(xibc(ctx)), host.FullClientStateKey(chainName))
+//@ ensures [same-type] err == nil ==> clientTypeOf(stored(old(xibc(ctx)), chainName)) == clientTypeOf(newClientState)
+//@ callsite UpgradeState [upgraded-as-new] recv == newClientState && consState == newConsensusState && store == k.ClientStore(ctx, chainName)
+//@ callsite SetClientState [installs-proposed-client] dollar_chainName == chainName && dollar_clientState == newClientState && ncalls("UpgradeState") == 1 && callsok("UpgradeState")
+//@ callsite SetClientConsensusState [installs-proposed-consensus] dollar_chainName == chainName && height == latestHeightOf(newClientState) && consensusState == newConsensusState
+//@ ensures [installed] err == nil ==> ncalls("SetClientState") == 1 && ncalls("SetClientConsensusState") == 1
+//@ ensures [reject-clean] err != nil && ncalls("UpgradeState") == 0 ==> xibc(ctx) == old(xibc(ctx))
 //@ ensures [packet-state-kept] packetStateKept(old(xibc(ctx)), xibc(ctx))
 
 // verif:func (Keeper).ToggleClient
 //@ modifies xibc(ctx)
+//@ ensures [exists]         err == nil ==> kvhas(old(xibc(ctx)), host.FullClientStateKey(chainName))
+//@ ensures [different-type] err == nil ==> clientTypeOf(stored(old(xibc(ctx)), chainName)) != clientTypeOf(newClientState)
+//@ callsite Initialize [initialised-as-new] recv == newClientState && consState == newConsensusState && store == k.ClientStore(ctx, chainName)
+//@ callsite SetClientState [installs-proposed-client] dollar_chainName == chainName && dollar_clientState == newClientState
+//@ callsite SetClientConsensusState [installs-proposed-consensus] dollar_chainName == chainName && height == latestHeightOf(newClientState) && consensusState == newConsensusState
+//@ ensures [installed] err == nil ==> ncalls("SetClientState") == 1 && ncalls("SetClientConsensusState") == 1 && ncalls("Initialize") == 1 && callsok("Initialize")
+//@ ensures [reject-clean] err != nil && ncalls("SetClientState") == 0 ==> xibc(ctx) == old(xibc(ctx))
 //@ ensures [packet-state-kept] packetStateKept(old(xibc(ctx)), xibc(ctx))
 
+// verif:spec marshalable(h exported.Header) bool
 // verif:func (Keeper).UpdateClient
+//@ requires [header-from-any] marshalable(header)
 //@ modifies xibc(ctx)
+//@ nopanic
+//@ ensures [exists]      err == nil ==> kvhas(old(xibc(ctx)), host.FullClientStateKey(chainName))
+//@ ensures [active-only] err == nil ==> statusOf(stored(old(xibc(ctx)), chainName), old(k.ClientStore(ctx, chainName)), blocktime(ctx)) == exported.Active
+//@ callsite CheckHeaderAndUpdateState [on-stored-client] recv == stored(old(xibc(ctx)), chainName) && dollar_header == header && store == k.ClientStore(ctx, chainName)
+//@ callsite SetClientState [stores-returned-client] dollar_chainName == chainName && dollar_clientState == callres("CheckHeaderAndUpdateState", 0) && callsok("CheckHeaderAndUpdateState")
+//@ callsite SetClientConsensusState [stores-at-header-height] dollar_chainName == chainName && height == headerHeight(header) && consensusState == callres("CheckHeaderAndUpdateState", 1)
+//@ ensures [reject-clean] err != nil && ncalls("CheckHeaderAndUpdateState") == 0 ==> xibc(ctx) == old(xibc(ctx))
 //@ ensures [packet-state-kept] packetStateKept(old(xibc(ctx)), xibc(ctx))
+
+// verif:func (Keeper).HandleCreateClient
+//@ modifies xibc(ctx)
+//@ ensures [unused-name] result1 == nil ==> !kvhas(old(xibc(ctx)), host.FullClientStateKey(p.ChainName))
+//@ callsite CreateClient [as-proposed] chainName == p.ChainName && ncalls("UnpackClientState") == 1 && clientState == callres("UnpackClientState", 0) && consensusState == callres("UnpackConsensusState", 0)
+//@ ensures [errors-propagate] result1 == nil ==> ncalls("CreateClient") == 1 && callsok("CreateClient")
+//@ ensures [reject-clean] result1 != nil && ncalls("CreateClient") == 0 ==> xibc(ctx) == old(xibc(ctx))
+
+// verif:func (Keeper).HandleUpgradeClient
+//@ modifies xibc(ctx)
+//@ callsite UpgradeClient [as-proposed] chainName == p.ChainName && newClientState == callres("UnpackClientState", 0) && newConsensusState == callres("UnpackConsensusState", 0)
+//@ ensures [errors-propagate] result1 == nil ==> ncalls("UpgradeClient") == 1 && callsok("UpgradeClient")
+
+// verif:func (Keeper).HandleToggleClient
+//@ modifies xibc(ctx)
+//@ callsite ToggleClient [as-proposed] chainName == p.ChainName && newClientState == callres("UnpackClientState", 0) && newConsensusState == callres("UnpackConsensusState", 0)
+//@ ensures [errors-propagate] result1 == nil ==> ncalls("ToggleClient") == 1 && callsok("ToggleClient")
